@@ -120,6 +120,49 @@ def coq_make(clean=False):
     return rc == 0, out + err
 
 
+def coq_deps(files):
+    """Transitive dependencies (paths relative to coq/) of the given .v files, themselves included."""
+    files = [f for f in files if os.path.exists(os.path.join(COQ, f))]
+    if not files:
+        return set()
+    rc, out, err = run(["coqdep", "-Q", ".", "PV", "-sort"] + files, cwd=COQ, timeout=300)
+    return set(out.split()) | set(files)
+
+
+def generator_outputs():
+    """translator source file -> Gen/*.v files it writes (read off the writeGen calls)."""
+    res = {}
+    tdir = os.path.join(VERIF, "translator")
+    for f in os.listdir(tdir):
+        if f.endswith(".go"):
+            outs = re.findall(r'writeGen\("([A-Za-z0-9_]+\.v)"', open(os.path.join(tdir, f)).read())
+            if outs:
+                res[f] = ["Gen/" + o for o in outs]
+    return res
+
+
+def harness_run_files(prop):
+    """Coq files the check's harness module evaluates (its `From PV Require Import` lines)."""
+    path = os.path.join(VERIF, "harness", prop.lower() + ".py")
+    mods = set()
+    try:
+        src = open(path).read()
+        extra = [src]
+        for m in re.findall(r"^(?:import|from)\s+([a-z0-9_]+)", src, re.M):
+            p2 = os.path.join(VERIF, "harness", m + ".py")
+            if m not in ("lib",) and os.path.exists(p2):
+                extra.append(open(p2).read())
+        for text in extra:
+            for line in re.findall(r"From PV Require (?:Import|Export) ([^\\\n\"']+)", text):
+                for m in line.replace(".\\n", " ").split():
+                    m = m.strip(".").strip()
+                    if re.fullmatch(r"[A-Za-z0-9_]+(\.[A-Za-z0-9_]+)+", m):
+                        mods.add(m.replace(".", "/") + ".v")
+    except OSError:
+        pass
+    return sorted(mods)
+
+
 def coq_failed_files(mlog):
     """Names of .v files whose compilation failed, from the make log."""
     bad = set()
@@ -472,13 +515,24 @@ class Check:
         with Lock():
             ok, problems, digest = regen()
             self.digest = digest
-            if not ok:
-                for p in problems:
-                    self.broken_ties.append("translator: " + p)
-            ok, mlog = coq_make(clean=clean)
-            self.make_ok = ok
+            ok2, mlog = coq_make(clean=clean)
             self.make_log = mlog
-            self.failed_files = coq_failed_files(mlog) if not ok else []
+            all_failed = coq_failed_files(mlog) if not ok2 else []
+            # only what this property's theorems and evaluated models depend on counts for this property
+            deps = coq_deps(["Props/" + prop_file] + harness_run_files(self.prop))
+            self.deps = sorted(deps)
+            self.failed_files = [f for f in all_failed if f in deps]
+            self.unrelated_failed_files = [f for f in all_failed if f not in deps]
+            self.make_ok = ok2 or not self.failed_files
+            if not ok:
+                gens = generator_outputs()
+                for p in problems:
+                    m = re.match(r"TRANSLATOR-PROBLEM: \[([^\]]+)\]", p)
+                    outs = gens.get(m.group(1), None) if m else None
+                    if outs is None or any(o in deps for o in outs):
+                        self.broken_ties.append("translator: " + p)
+                    else:
+                        self.notes.append("translator problem outside this property's dependencies: " + p[:200])
             hits = grep_forbidden()
             if hits:
                 self.broken_ties.append("forbidden constructs in development: " + "; ".join(hits[:5]))
